@@ -102,6 +102,7 @@ structure Decision where
   removeUnneeded : Bool
   release : Bool
   handlersRun : Bool   -- process_changing_cause is reached
+  delays : Bool        -- the returned `delays` are non-empty (→ `application.apply` sleeps, then touches)
   deriving DecidableEq, Repr
 
 def decision (i : In) : Decision :=
@@ -113,7 +114,8 @@ def decision (i : In) : Decision :=
   let delaysNE := i.spawnDelays || (chg && i.changeDelays)
   { add := add, removeUnneeded := rem,
     release := !early && releaseG i.deletedEvent i.isOngoing i.isBlocked delaysNE,
-    handlersRun := chg && !early }
+    handlersRun := chg && !early,
+    delays := if early then i.spawnDelays else delaysNE }   -- the early `return list(spawning_delays), False`
 
 /-- The atom vocabulary of the translator (harness/props/c06.py `extract`) for the conditions of
 the block, each read at its own program point. -/
@@ -152,7 +154,9 @@ structure State where
   rv : Nat               -- resourceVersion
   matchDel : Bool        -- the labels make a mandatory deletion handler match
   matchDmn : Bool        -- the labels make a daemon/timer match
-  delDone : Bool         -- the matching mandatory deletion handlers have finished (success/permanent failure)
+  delDone : Bool         -- the mandatory deletion handlers are finished as the next handling pass will see it:
+                         -- a finished record is stored, or they finished in the latest pass; a pass can undo it
+                         -- (`Env.delReset`: records are purged when a cycle closes, then the handlers run again)
   dmnLive : Bool         -- a daemon/timer task of this object runs (neither exited nor abandoned)
   dmnForever : Bool      -- memory.daemons_memory.forever_stopped covers the daemon
   mem : List Fn          -- memory.remaining_patch.fns (stays empty: the own finalizer edits are not carried)
@@ -165,6 +169,10 @@ structure Env where
   merge : Bool           -- the cycle's patch has dict content (progress, results, touch-dummy removal)
   otherChanging : Bool   -- some non-requiring changing handler prematches the object
   otherDelays : Bool     -- delays of other changing handlers (optional deletion handlers, retries)
+  delReset : Bool        -- this handling pass leaves the mandatory deletion handlers UNFINISHED again: their
+                         -- finished record was purged (at the completion of an earlier pass, or because they
+                         -- were not selected in a pass that closed: repair 2ae938f) and they are re-invoked
+                         -- without finishing, or are purged now while they do not match
   deriving DecidableEq, Repr
 
 inductive Label where
@@ -196,13 +204,14 @@ def inputs (own : String) (s : State) (e : Env) : In :=
     deletedEvent := false,
     consistent := e.consistent && s.mem.isEmpty,        -- patch_initially_empty
     spawnDelays := s.dmnLive && (s.marked || !s.matchDmn),  -- stop_daemons / match_daemons still wait
-    changeDelays := (s.matchDel && !s.delDone) || e.otherDelays }
+    changeDelays := (s.matchDel && !(s.delDone && !e.delReset)) || e.otherDelays }
 
 def stepDecide (own : String) (s : State) (e : Env) : Option State :=
   if s.pending.isSome then none else
   let d := decision (inputs own s e)
   some { s with
     dmnLive := s.dmnLive || (!s.marked && s.matchDmn && !s.dmnForever),   -- spawn_daemons
+    delDone := if d.handlersRun then s.delDone && !e.delReset else s.delDone,
     pending := some { fns := s.mem ++ d.fns, rvTest := s.rv, view := s.fins, merge := e.merge } }
 
 def stepMerge (s : State) : Option State :=
